@@ -130,6 +130,8 @@ pub enum Atom {
     FlipEmpty(usize),
     LocalPrefix(usize),
     RedeclareNs(usize),
+    CommentInText(usize),
+    UnusedDecl(usize),
 }
 
 fn style_of(atoms: &[Atom], kind: Kind) -> Style {
@@ -159,6 +161,8 @@ fn style_of(atoms: &[Atom], kind: Kind) -> Style {
             Atom::FlipEmpty(s) => st.flip_empty.push(*s),
             Atom::LocalPrefix(s) => st.local_prefix.push(*s),
             Atom::RedeclareNs(s) => st.redeclare_ns.push(*s),
+            Atom::CommentInText(s) => st.comment_in_text.push(*s),
+            Atom::UnusedDecl(s) => st.unused_decl.push(*s),
         }
     }
     if is_message(kind) {
@@ -208,6 +212,12 @@ fn atoms_for(tree: &N) -> Vec<Atom> {
         if n.kids.is_empty() && n.text.as_deref().map_or(true, str::is_empty) {
             v.push(Atom::FlipEmpty(*site));
         }
+        if n.kids.is_empty() && n.text.as_deref().map_or(false, |t| !t.is_empty()) && n.name != "data" {
+            v.push(Atom::CommentInText(*site));
+        }
+        if !n.ns.is_empty() && n.kids.is_empty() && n.attrs.iter().all(|(ns, _, _)| ns.is_empty()) && *site != 0 {
+            v.push(Atom::UnusedDecl(*site));
+        }
         if !n.ns.is_empty() {
             v.push(Atom::LocalPrefix(*site));
             if *site != 0 {
@@ -242,6 +252,8 @@ fn atom_label(a: &Atom, tree: &N) -> String {
         Atom::FlipEmpty(s) => format!("{}:empty->start-end", name(*s)),
         Atom::LocalPrefix(s) => format!("{}:prefix-declared-on-the-element-itself", name(*s)),
         Atom::RedeclareNs(s) => format!("{}:namespace-redeclared", name(*s)),
+        Atom::CommentInText(s) => format!("{}:comment-inside-text", name(*s)),
+        Atom::UnusedDecl(s) => format!("{}:unused-declaration-on-a-leaf-rebinding-what-its-siblings-use", name(*s)),
     }
 }
 
@@ -356,7 +368,7 @@ pub fn run_c13(cfg: &Cfg) -> i32 {
         "one evaluation = one XML-equivalent re-serialisation (one rewrite at one site, or a random composition) of an accepted base message, parsed by the real reader for that message kind and compared with the base's parse result; \
          distinct = distinct serialised variants; every variant differs from its base and is non-trivial",
     );
-    rep.assumptions.push("rewrites are information-preserving for these grammars: prefix vs default namespace, inter-element whitespace, whitespace around token-valued leaves only, comments between elements, attribute order and quoting, XML declaration, <x/> vs <x></x>; free-text leaves are never touched".into());
+    rep.assumptions.push("rewrites are information-preserving for these grammars: prefix vs default namespace, inter-element whitespace, whitespace around token-valued leaves only, comments between elements and after a leaf's text, attribute order and quoting, XML declaration (five spellings), <x/> vs <x></x>, a prefix declared on the element itself, a redundant re-declaration, an unused declaration on a leaf; the characters of free-text leaves are never touched".into());
     // the base family is fixed (independent of VERIF_SEED) so that signatures are stable
     let bases = bases::bases(0);
     let caps: Vec<&str> = crate::memwire::ALL_CAPS.to_vec();
@@ -400,8 +412,21 @@ pub fn run_c13(cfg: &Cfg) -> i32 {
         labels.sort();
         labels.dedup();
         let (mout, mtext) = eval_style(base, &toggle(base_atoms, &min), s);
+        // the two rewrites behind the recorded reader limitations (text taken as the raw span up to
+        // the end tag; a declaration on a skipped or text-only element staying in scope) carry the
+        // kind of wrong outcome in their signature, so that a different failure at the same site
+        // is a different signature
+        let class = if min.len() == 1 && matches!(min[0], Atom::CommentInText(_) | Atom::UnusedDecl(_)) {
+            match &mout {
+                Outcome::Rejected(_) => ":rejected",
+                Outcome::Panic(_) => ":panic",
+                _ => ":different-result",
+            }
+        } else {
+            ""
+        };
         rep.violation(
-            &format!("{}/{}", base.kind.name(), labels.join("+")),
+            &format!("{}/{}{class}", base.kind.name(), labels.join("+")),
             &format!("base parses to {}, the equivalent variant to {}", base_out.short(), mout.short()),
             json!({"base": base.label, "rewrites": labels, "variant": clip(&mtext, 1200), "how": how, "seed": cfg.seed,
                    "original_composition": format!("{atoms:?}"), "original_outcome": out.short(), "original_variant": clip(&text, 400)}),
@@ -449,7 +474,9 @@ pub fn run_c13(cfg: &Cfg) -> i32 {
         let bi = r.below(bases.len());
         let base = &bases[bi];
         let Some((base_atoms, base_out)) = forms[bi].clone() else { continue };
-        let atoms = atoms_for(&base.tree);
+        // (the two rewrites with recorded findings are exercised singly only: in a composition the
+        // minimisation could settle on them and hide another rewrite that fails too)
+        let atoms: Vec<Atom> = atoms_for(&base.tree).into_iter().filter(|a| !matches!(a, Atom::CommentInText(_) | Atom::UnusedDecl(_))).collect();
         let k = r.range(2, 6.min(atoms.len()));
         let mut pick: Vec<Atom> = (0..k).map(|_| atoms[r.below(atoms.len())].clone()).collect();
         pick.sort();
